@@ -252,7 +252,20 @@ def _run(F, rep, tier):
                 for c in find(arm[2], "mcall"):
                     if c[2] == "compile" and c[4]:
                         args = render(c[4][0])
-                        names = re.findall(r"\b(start|increment|step|terminal|end)\w*", args)
+                        # roles by provenance, not by spelling: a local stands for the field of the range node (start / increment / terminal) its initialiser reads
+                        role = {}
+                        for _ in range(3):
+                            for n_ in walk(body):
+                                if not is_node(n_) or n_[0] not in ("let", "letc") or len(n_) < 3 or n_[2] is None:
+                                    continue
+                                txt = render(n_[2])
+                                f_ = re.search(r"\.(start|increment|terminal)\b", txt)
+                                r_ = f_.group(1) if f_ else next((role[x] for x in re.findall(r"[A-Za-z_]\w*", txt) if x in role), None)
+                                if r_:
+                                    for p_ in walk(n_[1]):
+                                        if is_node(p_) and p_[0] == "pident" and p_[1] not in role:
+                                            role[p_[1]] = r_
+                        names = [role[x] for x in re.findall(r"[A-Za-z_]\w*", args) if x in role]
                         if len(names) >= 2:
                             order_ok = names[0].startswith("start") and names[-1].startswith(("terminal", "end"))
                             rep.check(order_ok, "C15-R3", "args:%s" % op if order_ok else "args:%s:%s" % (op, "-".join(names)),
